@@ -79,6 +79,7 @@ func (e *Eng) obligations() {
 	e.terminatorSend(fsi)
 	e.syncCapacity()
 	e.pipeline()
+	e.sharedVars()
 	// pooled objects are reset before they are put back / after they are taken
 	e.poolDiscipline()
 
